@@ -143,6 +143,23 @@ def kind_swapped_primer(d):
     return "\n".join(pr) + "\n"
 
 
+def module_files(d, rng, tail_module=None):
+    """the schema of `d` spread over files: main.fcp first declares an enum and a struct of its own, then imports
+    `a/types.fcp` (all enums and the first structs of `d`: a prefix is closed under declare-before-use) and the namesake
+    `b/types.fcp` (an independent module: `tail_module` or one small struct), then declares the rest.  The declarations of `d`
+    keep their order, so every struct and enum of `d` means in the merged schema what it means in `d.text()`."""
+    k = rng.randint(0, len(d.structs))
+    one = Desc()
+    one.enums, one.structs, one.params = d.enums, d.structs[:k], d.params
+    rest = Desc()
+    rest.structs, rest.params, rest.extra = d.structs[k:], d.params, d.extra
+    lead = "enum Lead0 {\n    LA = 0,\n    LB = 3,\n}\nstruct LeadS {\n    z @ 0: Lead0,\n    w @ 1: u3,\n}\n"
+    body = rest.text().split("\n", 2)[2] if rest.structs or rest.extra else ""
+    return {"main.fcp": 'version: "3"\n\n' + lead + "mod a.types;\nmod b.types;\n" + body,
+            "a/types.fcp": one.text(),
+            "b/types.fcp": 'version: "3"\n\n' + (tail_module or "struct Tail9 {\n    t @ 0: u8,\n}\n")}
+
+
 def gen_enums(rng, n, big=False):
     enums = []
     for k in range(n):
